@@ -6,8 +6,13 @@
 //! (result code, recorded paths + exists flags, workspace listing after).  Oracle (independent of
 //! the model): after a successful rewind every covered path has the bytes / absence the harness saw
 //! at create time and no other file changed; a failed rewind changes no file; an auto-checkpoint
-//! precedes tool_started and covers every file the tool changed, and rewinding to it undoes the edit;
-//! nothing outside the root changes.
+//! precedes tool_started and covers every file the tool changed; nothing outside the root changes.
+//! Oracle BY EFFECT for the auto checkpoint (`"undo": true` on a tool op): the whole workspace tree is
+//! snapshotted before the tool call, after it, and after rewinding to the call's auto checkpoint: after
+//! the rewind every file of the tree (named by the call or not) must have exactly its bytes from before
+//! the call - class `edit_not_undone_by_auto_checkpoint`.  The generator decorates path arguments
+//! (blanks, unicode blanks, `./`, `//`, trailing `/`, ...: the decoration grammar of c13.rs) and
+//! populates the workspace with siblings of every target (`<stem>.tmp`, `<name>.tmp`, `<name>~`, ...).
 #[path = "../ws_common.rs"]
 mod ws_common;
 #[path = "../ws13_common.rs"]
@@ -106,6 +111,7 @@ struct World<'a> {
     seq: u64,
     cks: Vec<Ck>,
     root_s: String,
+    last: Listing, // the listing the model has seen last
 }
 
 impl<'a> World<'a> {
@@ -146,13 +152,86 @@ impl<'a> World<'a> {
         if files_of(before) != files_of(after) {
             run.viol.push(("checkpoint create changed workspace files".into(), "create_changed_files".into()));
         }
-        run.coq_ops.push(format!(
-            "(OCreate {} {} {}, {})",
-            coq_list(raws, |s| coq_str(s)),
-            code,
-            coq_list(&recorded, |(p, e)| format!("({}, {})", coq_str(p), coq_bool(*e))),
-            coq_fs_cp(after)
-        ));
+        let opn = format!("OCreate {} {} {}", coq_list(raws, |s| coq_str(s)), code, coq_list(&recorded, |(p, e)| format!("({}, {})", coq_str(p), coq_bool(*e))));
+        self.push_op(run, opn, after);
+    }
+
+    /// rewind to the idx-th registered checkpoint, with the round-trip oracle; returns (ok, listing after)
+    fn do_rewind(&mut self, run: &mut Run, idx: usize, via_runner: bool, before: &Listing) -> (bool, Listing) {
+        let id = self.cks[idx].id.clone();
+        let ok = if !via_runner {
+            self.ws.rewind_to_checkpoint("s1", &id).is_ok()
+        } else {
+            let evs = self.runner.rewind_checkpoint("s1", &mut self.seq, &id);
+            evs.iter().any(|e| matches!(e.kind, EventKind::CheckpointRewound { .. }))
+        };
+        let after = ws_listing(&self.sbx.root);
+        Self::bump(run, if ok { "rewind-ok" } else { "rewind-failed" });
+        let fb = files_of(before);
+        let fa = files_of(&after);
+        if ok {
+            let covered: Vec<&Comps> = self.cks[idx].expect.iter().map(|(c, _)| c).collect();
+            for (c, want) in &self.cks[idx].expect {
+                if fa.get(c) != want.as_ref() {
+                    run.viol.push((
+                        format!("after rewind, covered path {} is {} but was {} when the checkpoint was taken", show_comps(c), desc(fa.get(c)), desc(want.as_ref())),
+                        "covered_file_not_restored".into(),
+                    ));
+                }
+            }
+            for p in fb.keys().chain(fa.keys()) {
+                if !covered.contains(&p) && fb.get(p) != fa.get(p) {
+                    run.viol.push((format!("rewind changed the uncovered file {}", show_comps(p)), "rewind_touched_uncovered".into()));
+                    break;
+                }
+            }
+            // structural: no workspace file may share its inode with a stored copy (a later in-place edit
+            // would rewrite the checkpoint)
+            if let Some(p) = self.shared_with_store(&after) {
+                run.viol.push((format!("after rewind the workspace file {} and a stored copy are one inode", show_comps(&p)), "covered_file_not_restored".into()));
+            }
+        } else if fb != fa {
+            run.viol.push(("a failed rewind changed workspace files".into(), "failed_rewind_changed_files".into()));
+        }
+        self.push_op(run, format!("ORewind {} {}", idx, if ok { 0 } else { 1 }), &after);
+        (ok, after)
+    }
+    fn shared_with_store(&self, l: &Listing) -> Option<Comps> {
+        use std::os::unix::fs::MetadataExt;
+        let mut store_inodes = std::collections::BTreeSet::new();
+        fn rec(d: &std::path::Path, out: &mut std::collections::BTreeSet<(u64, u64)>) {
+            if let Ok(rd) = std::fs::read_dir(d) {
+                for e in rd.flatten() {
+                    if let Ok(m) = std::fs::symlink_metadata(e.path()) {
+                        if m.is_dir() {
+                            rec(&e.path(), out);
+                        } else {
+                            out.insert((m.dev(), m.ino()));
+                        }
+                    }
+                }
+            }
+        }
+        rec(&self.sbx.root.join(".rip"), &mut store_inodes);
+        for (c, n) in l {
+            if let Node::File(_) = n {
+                if let Ok(m) = std::fs::symlink_metadata(comps_path(&self.sbx.root, c)) {
+                    if m.nlink() > 1 && store_inodes.contains(&(m.dev(), m.ino())) {
+                        return Some(c.clone());
+                    }
+                }
+            }
+        }
+        None
+    }
+    /// one observed operation for the model: the listing is left out when it equals the previous one
+    fn push_op(&mut self, run: &mut Run, op: String, after: &Listing) {
+        if *after == self.last {
+            run.coq_ops.push(format!("({op}, None)"));
+        } else {
+            run.coq_ops.push(format!("({op}, Some {})", coq_fs_cp(after)));
+            self.last = after.clone();
+        }
     }
 
     fn exec(&mut self, run: &mut Run, op: &Value) {
@@ -190,37 +269,7 @@ impl<'a> World<'a> {
                     return;
                 }
                 let idx = (op["idx"].as_u64().unwrap_or(0) as usize) % self.cks.len();
-                let id = self.cks[idx].id.clone();
-                let ok = if kind == "rewind" {
-                    self.ws.rewind_to_checkpoint("s1", &id).is_ok()
-                } else {
-                    let evs = self.runner.rewind_checkpoint("s1", &mut self.seq, &id);
-                    evs.iter().any(|e| matches!(e.kind, EventKind::CheckpointRewound { .. }))
-                };
-                let after = ws_listing(&self.sbx.root);
-                Self::bump(run, if ok { "rewind-ok" } else { "rewind-failed" });
-                let fb = files_of(&before);
-                let fa = files_of(&after);
-                if ok {
-                    let covered: Vec<&Comps> = self.cks[idx].expect.iter().map(|(c, _)| c).collect();
-                    for (c, want) in &self.cks[idx].expect {
-                        if fa.get(c) != want.as_ref() {
-                            run.viol.push((
-                                format!("after rewind, covered path {} is {} but was {} when the checkpoint was taken", show_comps(c), desc(fa.get(c)), desc(want.as_ref())),
-                                "covered_file_not_restored".into(),
-                            ));
-                        }
-                    }
-                    for p in fb.keys().chain(fa.keys()) {
-                        if !covered.contains(&p) && fb.get(p) != fa.get(p) {
-                            run.viol.push((format!("rewind changed the uncovered file {}", show_comps(p)), "rewind_touched_uncovered".into()));
-                            break;
-                        }
-                    }
-                } else if fb != fa {
-                    run.viol.push(("a failed rewind changed workspace files".into(), "failed_rewind_changed_files".into()));
-                }
-                run.coq_ops.push(format!("(ORewind {} {}, {})", idx, if ok { 0 } else { 1 }, coq_fs_cp(&after)));
+                self.do_rewind(run, idx, kind == "rewind_runner", &before);
             }
             "edit" => {
                 let p = self.sbx.root.join(op["path"].as_str().unwrap_or("x"));
@@ -255,7 +304,7 @@ impl<'a> World<'a> {
                     }
                 }
                 let after = ws_listing(&self.sbx.root);
-                run.coq_ops.push(format!("(OEdit {}, {})", coq_fs_cp(&after), coq_fs_cp(&after)));
+                self.push_op(run, "OEdit".into(), &after);
             }
             "tool" => {
                 let name = op["name"].as_str().unwrap_or("write").to_string();
@@ -341,7 +390,60 @@ impl<'a> World<'a> {
                         self.register(run, "", &raws, code, &before, &before);
                     }
                 }
-                run.coq_ops.push(format!("(OEdit {}, {})", coq_fs_cp(&after), coq_fs_cp(&after)));
+                // the tool call itself: the write tool is replayed in the model (OWrite), apply_patch is an opaque edit
+                let registered = parsed && created.is_some();
+                if name == "write" && args["path"].is_string() && args["content"].is_string() {
+                    let mode = if args["append"].as_bool().unwrap_or(false) {
+                        if args["create"].as_bool().unwrap_or(true) { 2 } else { 3 }
+                    } else if args["atomic"].as_bool().unwrap_or(true) {
+                        0
+                    } else {
+                        1
+                    };
+                    let opn = format!("OWrite {} {} {} {}", coq_str(args["path"].as_str().unwrap_or("")), mode, ws_common::coq_bytes(args["content"].as_str().unwrap_or("").as_bytes()), if tool_ok { 0 } else { 1 });
+                    self.push_op(run, opn, &after);
+                } else {
+                    self.push_op(run, "OEdit".into(), &after);
+                }
+                // ORACLE BY EFFECT: rewinding to the call's auto checkpoint must give back the tree from before the call
+                if op["undo"].as_bool().unwrap_or(false) {
+                    if registered {
+                        let idx = self.cks.len() - 1;
+                        let via_runner = op["undo_runner"].as_bool().unwrap_or(false);
+                        let (ok, rewound) = self.do_rewind(run, idx, via_runner, &after);
+                        Self::bump(run, "undo-checked");
+                        if !ok {
+                            run.viol.push((format!("{name}: the rewind to the call's own auto checkpoint failed; the edit ({}) cannot be undone", show_list(&changed)), "edit_not_undone_by_auto_checkpoint".into()));
+                        } else {
+                            let fb = files_of(&before);
+                            let fr = files_of(&rewound);
+                            let bad: Vec<Comps> = fb.keys().chain(fr.keys()).filter(|p| fb.get(*p) != fr.get(*p)).cloned().collect::<std::collections::BTreeSet<_>>().into_iter().collect();
+                            if let Some(p) = bad.first() {
+                                run.viol.push((
+                                    format!(
+                                        "{name} {}: after rewinding to the call's auto checkpoint (covering {:?}) the file {} is {} but was {} before the call",
+                                        if name == "write" { format!("{:?}", args["path"].as_str().unwrap_or("")) } else { "patch".to_string() },
+                                        created.as_ref().map(|c| c.1.clone()).unwrap_or_default(),
+                                        show_comps(p),
+                                        desc(fr.get(p)),
+                                        desc(fb.get(p))
+                                    ),
+                                    "edit_not_undone_by_auto_checkpoint".into(),
+                                ));
+                            }
+                            // a directory of the tree before the call is still a directory
+                            for (c, n) in &before {
+                                if *n == Node::Dir && rewound.get(c) != Some(&Node::Dir) {
+                                    run.viol.push((format!("{name}: the directory {} is gone after the undo", show_comps(c)), "edit_not_undone_by_auto_checkpoint".into()));
+                                    break;
+                                }
+                            }
+                        }
+                    } else if !changed.is_empty() {
+                        Self::bump(run, "undo-no-checkpoint");
+                        run.viol.push((format!("{name} changed {} and there is no auto checkpoint to rewind to ({:?})", show_list(&changed), failed), "edit_not_undone_by_auto_checkpoint".into()));
+                    }
+                }
             }
             _ => {}
         }
@@ -349,6 +451,9 @@ impl<'a> World<'a> {
         self.outside_check(run, kind, &all_before, &all_after);
         run.done.push(op.clone());
     }
+}
+fn show_list(l: &[Comps]) -> String {
+    l.iter().map(show_comps).collect::<Vec<_>>().join(", ")
 }
 fn desc(b: Option<&Vec<u8>>) -> String {
     match b {
@@ -358,7 +463,126 @@ fn desc(b: Option<&Vec<u8>>) -> String {
 }
 
 // ------------------------------------------------------------------ generation (inside the worker: ops depend on the state)
-const FILES: [&str; 9] = ["a.txt", "b.txt", "d/x.txt", "d/y.txt", "d/e/z.txt", "n/o/p.txt", "sp ace.txt", "new.txt", "m/n/new.txt"];
+const FILES: [&str; 13] = ["a.txt", "b.txt", "d/x.txt", "d/y.txt", "d/e/z.txt", "n/o/p.txt", "sp ace.txt", "Makefile", "d/Makefile", ".hidden", "d/archive.tar.gz", "new.txt", "m/n/new.txt"];
+const N_EXISTING: usize = 11;
+
+// ---- decorations of a path argument: the grammar of harness/src/bin/c13.rs (builder ws13b), reduced to what keeps a
+// relative core relative or makes it refused, plus every blank str::trim knows about
+const PREFIXES: [&str; 30] = [
+    "", "./", ".//", "././/", "./././", "./.", " ", "\t", "\n", "\r\n", "  ", " \t", "\u{a0}", "\u{2003}", "\u{3000}", "\u{85}", "\u{feff}", "\u{200b}", "\\", ".\\", "%2F", "%2e/", "~/", "file://", ". /", "./ ", "\u{2024}/", "//", "/./",
+    "LONG./",
+];
+const INFIXES: [&str; 6] = ["id", "dbl", "dot", "bs", "fw", "first_dbl"];
+const SUFFIXES: [&str; 20] = ["", "/", "/.", "//", "/./", " ", "\t", "\n", "\r\n", "  ", "\u{a0}", "\u{2003}", "\u{3000}", "\u{85}", "\u{feff}", "\0", "%00", "\\", "/ ", " /"];
+
+fn apply_infix(inf: &str, core: &str) -> String {
+    match inf {
+        "dbl" => core.replace('/', "//"),
+        "dot" => core.replace('/', "/./"),
+        "bs" => core.replace('/', "\\"),
+        "fw" => core.replace('/', "\u{ff0f}"),
+        "first_dbl" => match core.char_indices().skip(1).find(|(_, c)| *c == '/') {
+            Some((i, _)) => format!("{}//{}", &core[..i], &core[i + 1..]),
+            None => core.to_string(),
+        },
+        _ => core.to_string(),
+    }
+}
+fn decorate(pre: &str, inf: &str, suf: &str, core: &str) -> String {
+    let pre = match pre {
+        "LONG./" => "./".repeat(1500),
+        p => p.to_string(),
+    };
+    format!("{pre}{}{suf}", apply_infix(inf, core))
+}
+fn header_safe(s: &str) -> bool {
+    !s.contains(['\n', '\r'])
+}
+fn gen_deco(r: &mut Rng, core: &str) -> String {
+    if r.chance(1, 2) {
+        return core.to_string();
+    }
+    let pre = if r.chance(1, 2) { *r.pick(&PREFIXES[..PREFIXES.len() - 1]) } else { "" };
+    let inf = if r.chance(1, 4) { *r.pick(&INFIXES[..]) } else { "id" };
+    let suf = if r.chance(1, 2) { *r.pick(&SUFFIXES[..]) } else { "" };
+    decorate(pre, inf, suf, core)
+}
+
+/// names next to a target that an editor, a careless temp-file scheme or a backup scheme would use
+fn sibling_names(name: &str) -> Vec<String> {
+    let stem = match name.rfind('.') {
+        Some(i) if i > 0 => &name[..i],
+        _ => name,
+    };
+    let first_stem = match name[1.min(name.len())..].find('.') {
+        Some(i) => &name[..i + 1],
+        None => name,
+    };
+    let mut v = vec![
+        format!("{stem}.tmp"),
+        format!("{name}.tmp"),
+        format!("{name}~"),
+        format!(".{name}.swp"),
+        format!("{name}.tmp-x"),
+        format!("{name}.bak"),
+        format!("{stem}.tmp-x"),
+        format!("{name} "),
+        format!("{stem}.bak"),
+        format!(".{name}.tmp"),
+        format!("{name}.orig"),
+        format!("{name}.new"),
+        format!("{name}.lock"),
+        format!("#{name}#"),
+        format!("{stem}.tmp-"),
+        format!("{first_stem}.tmp"),
+        format!("{name}.part"),
+        format!(".tmp-{name}"),
+        format!("tmp-{name}"),
+        format!(" {name}"),
+    ];
+    if stem != name {
+        v.push(stem.to_string());
+    }
+    // keep the order (the first eight are the ones every systematic workspace holds), drop repeats
+    let mut seen = std::collections::BTreeSet::new();
+    v.retain(|x| seen.insert(x.clone()));
+    v.retain(|x| x != name && !x.is_empty() && x != "." && x != "..");
+    v
+}
+fn split_dir(p: &str) -> (String, &str) {
+    match p.rfind('/') {
+        Some(i) => (p[..i + 1].to_string(), &p[i + 1..]),
+        None => (String::new(), p),
+    }
+}
+fn put_file(l: &mut Listing, p: &str, content: &str) {
+    let c: Comps = p.split('/').map(|s| s.as_bytes().to_vec()).collect();
+    for i in 1..c.len() {
+        if let Some(Node::File(_)) = l.get(&c[..i].to_vec()) {
+            return;
+        }
+    }
+    if l.get(&c) == Some(&Node::Dir) {
+        return;
+    }
+    for i in 1..c.len() {
+        l.insert(c[..i].to_vec(), Node::Dir);
+    }
+    l.insert(c, Node::File(content.as_bytes().to_vec()));
+}
+fn put_siblings(l: &mut Listing, target: &str, which: &mut dyn FnMut(usize) -> bool) {
+    let (dir, name) = split_dir(target);
+    for (i, sname) in sibling_names(name).iter().enumerate() {
+        if which(i) {
+            let p = format!("{dir}{sname}");
+            let c: Comps = p.split('/').map(|s| s.as_bytes().to_vec()).collect();
+            if !l.contains_key(&c) {
+                put_file(l, &p, &format!("sibling {p}\n"));
+            }
+        }
+    }
+}
+
 fn variant(r: &mut Rng, p: &str) -> String {
     match r.below(14) {
         0 => format!("./{p}"),
@@ -368,6 +592,7 @@ fn variant(r: &mut Rng, p: &str) -> String {
         4 | 5 => format!("{{ROOT}}/{p}"),
         6 => format!("{{ROOT}}//{p}"),
         7 => format!("{p}/."),
+        8 => gen_deco(r, p),
         _ => p.to_string(),
     }
 }
@@ -383,19 +608,52 @@ fn gen_raw(r: &mut Rng) -> String {
 }
 fn gen_init(r: &mut Rng) -> Listing {
     let mut l = Listing::new();
-    for p in FILES.iter().take(7) {
+    for p in FILES.iter().take(N_EXISTING) {
         if r.chance(2, 3) {
-            let c: Comps = p.split('/').map(|s| s.as_bytes().to_vec()).collect();
-            for i in 1..c.len() {
-                l.insert(c[..i].to_vec(), Node::Dir);
-            }
-            l.insert(c, Node::File(format!("{p} v0\n").into_bytes()));
+            put_file(&mut l, p, &format!("{p} v0\n"));
+        }
+    }
+    // siblings of targets (existing or not yet existing) under the suffix / prefix variants
+    for p in FILES.iter() {
+        if r.chance(1, 3) {
+            let mut pick = |_i: usize| r.chance(1, 4);
+            put_siblings(&mut l, p, &mut pick);
         }
     }
     if r.chance(1, 4) {
         l.insert(vec![b"emptydir".to_vec()], Node::Dir);
     }
     l
+}
+fn write_args(mode: u64, raw: &str, content: &str) -> Value {
+    let mut args = json!({"path": raw, "content": content});
+    match mode {
+        1 => args["atomic"] = json!(false),
+        2 => args["append"] = json!(true),
+        3 => {
+            args["append"] = json!(true);
+            args["create"] = json!(false);
+        }
+        _ => {}
+    }
+    args
+}
+/// one patch operation on `file` (content known to start with `first`), header paths already decorated
+fn patch_lines(kind: u64, file: &str, first: &str, dest: &str, step: u64) -> Vec<String> {
+    match kind {
+        0 => vec![format!("*** Add File: {file}"), format!("+added v{step}")],
+        1 => vec![format!("*** Delete File: {file}")],
+        2 => vec![format!("*** Update File: {file}"), "@@".into(), format!("-{first}"), format!("+patched v{step}")],
+        _ => vec![format!("*** Update File: {file}"), format!("*** Move to: {dest}"), "@@".into(), format!("-{first}"), format!("+patched v{step}")],
+    }
+}
+fn patch_op(ops: Vec<Vec<String>>) -> Value {
+    let mut lines = vec!["*** Begin Patch".to_string()];
+    for o in ops {
+        lines.extend(o);
+    }
+    lines.push("*** End Patch".into());
+    json!({"patch": lines.join("\n")})
 }
 fn gen_op(r: &mut Rng, root: &std::path::Path, n_cks: usize, step: u64) -> Value {
     let cur = ws_listing(root);
@@ -409,7 +667,7 @@ fn gen_op(r: &mut Rng, root: &std::path::Path, n_cks: usize, step: u64) -> Value
     if k < 6 && n_cks > 0 {
         return json!({"op": if r.chance(1, 3) { "rewind_runner" } else { "rewind" }, "idx": r.below(n_cks as u64)});
     }
-    if k < 9 {
+    if k < 8 {
         let p = *r.pick(&FILES[..]);
         let how = *r.pick(&["write", "write", "write", "delete", "delete", "mkdir", "to_dir", "to_file", "to_file", "to_file", "rmtree"]);
         let path = match how {
@@ -420,53 +678,122 @@ fn gen_op(r: &mut Rng, root: &std::path::Path, n_cks: usize, step: u64) -> Value
         };
         return json!({"op": "edit", "how": how, "path": path, "content": format!("{path} v{step}\n")});
     }
-    // tools through the ToolRunner (auto checkpoint)
+    // tools through the ToolRunner (auto checkpoint); most of them followed by the undo-by-effect check
+    let undo = r.chance(3, 4);
+    let undo_runner = r.chance(1, 3);
     if r.chance(1, 2) {
-        let p = *r.pick(&FILES[..]);
+        let p = if !files.is_empty() && r.chance(1, 3) { r.pick(&files).clone() } else { r.pick(&FILES[..]).to_string() };
         let raw = match r.below(10) {
-            0 => format!("./{p}"),
-            1 => p.replacen('/', "//", 1),
-            2 => format!("{{ROOT}}/{p}"),
-            3 => "../outside.txt".to_string(),
-            _ => p.to_string(),
+            0 => format!("{{ROOT}}/{p}"),
+            1 => "../outside.txt".to_string(),
+            2 => r.pick(&["d", "", ".", "d/e/", "emptydir"]).to_string(),
+            _ => gen_deco(r, &p),
         };
-        let mut args = json!({"path": raw, "content": format!("tool {p} v{step}\n")});
-        match r.below(4) {
-            0 => args["atomic"] = json!(false),
-            1 => args["append"] = json!(true),
-            _ => {}
-        }
-        return json!({"op": "tool", "name": "write", "args": args});
+        let args = write_args(r.below(5).min(3), &raw, &format!("tool {p} v{step}\n"));
+        return json!({"op": "tool", "name": "write", "args": args, "undo": undo, "undo_runner": undo_runner});
     }
-    let mut lines = vec!["*** Begin Patch".to_string()];
+    let mut ops = vec![];
     let nops = r.range(1, 3);
     for _ in 0..nops {
+        let deco = |r: &mut Rng, p: &str| {
+            let d = gen_deco(r, p);
+            if header_safe(&d) {
+                d
+            } else {
+                p.to_string()
+            }
+        };
         match r.below(4) {
             0 => {
-                lines.push(format!("*** Add File: {}", r.pick(&["added.txt", "d/added.txt", "q/r/added.txt", "new.txt"])));
-                lines.push(format!("+added v{step}"));
+                let t = *r.pick(&["added.txt", "d/added.txt", "q/r/added.txt", "new.txt", "m/n/new.txt", "Makefile"]);
+                ops.push(patch_lines(0, &deco(r, t), "", "", step));
             }
-            1 if !files.is_empty() => lines.push(format!("*** Delete File: {}", r.pick(&files))),
+            1 if !files.is_empty() => {
+                let f = r.pick(&files).clone();
+                ops.push(patch_lines(1, &deco(r, &f), "", "", step));
+            }
             _ if !files.is_empty() => {
                 let f = r.pick(&files).clone();
                 let text = std::fs::read_to_string(root.join(&f)).unwrap_or_default();
                 let first = text.lines().next().unwrap_or("").to_string();
-                lines.push(format!("*** Update File: {f}"));
-                if r.chance(1, 3) {
-                    lines.push(format!("*** Move to: {}", r.pick(&["moved.txt", "d/moved.txt", "z/moved.txt"])));
-                }
-                lines.push("@@".into());
-                lines.push(format!("-{first}"));
-                lines.push(format!("+patched v{step}"));
+                let mv = r.chance(1, 3);
+                let dest = *r.pick(&["moved.txt", "d/moved.txt", "z/moved.txt", "a.txt", "d/x.tmp"]);
+                ops.push(patch_lines(if mv { 3 } else { 2 }, &deco(r, &f), &first, &deco(r, dest), step));
             }
-            _ => {
-                lines.push("*** Add File: added2.txt".into());
-                lines.push("+x".into());
-            }
+            _ => ops.push(patch_lines(0, "added2.txt", "", "", step)),
         }
     }
-    lines.push("*** End Patch".into());
-    json!({"op": "tool", "name": "apply_patch", "args": {"patch": lines.join("\n")}})
+    json!({"op": "tool", "name": "apply_patch", "args": patch_op(ops), "undo": undo, "undo_runner": undo_runner})
+}
+
+/// SYSTEMATIC block: every single decoration around existing / nested / new targets, through every tool with an auto
+/// checkpoint (write atomic / plain / append / append without create, apply_patch add / delete / update / move), in a
+/// workspace holding every sibling variant of every target; each call followed by the undo-by-effect check.
+/// `per_deco` = how many of the (target, tool) combinations each decoration gets (rotating); 0 = all.
+fn systematic(seed: u64, per_deco: usize) -> Vec<Value> {
+    const TARGETS: [&str; 9] = ["a.txt", "d/x.txt", "new.txt", "d/Makefile", ".hidden", "d/archive.tar.gz", "m/n/new.txt", "sp ace.txt", "d/..a"];
+    let mut decos: Vec<(&str, &str, &str)> = vec![];
+    for p in PREFIXES.iter() {
+        decos.push((p, "id", ""));
+    }
+    for i in INFIXES.iter().skip(1) {
+        decos.push(("", i, ""));
+    }
+    for s in SUFFIXES.iter().skip(1) {
+        decos.push(("", "id", s));
+    }
+    decos.push((" ", "id", " "));
+    decos.push(("./", "dbl", "/"));
+    decos.push(("\u{a0}", "id", "\u{2003}"));
+    decos.push(("./", "id", " "));
+    decos.push((" ", "dot", "\n"));
+    let mut v = vec![];
+    let mut k = seed as usize;
+    for (pre, inf, suf) in decos {
+        // quick: one group of three targets (rotating); thorough: three groups covering all nine
+        let groups: Vec<Vec<usize>> = if per_deco == 0 { vec![vec![0, 1, 2], vec![3, 4, 5], vec![6, 7, 8]] } else { vec![(0..3).map(|i| (k + i * 3) % TARGETS.len()).collect()] };
+        for g in groups {
+            let mut init = Listing::new();
+            for p in FILES.iter().take(N_EXISTING) {
+                put_file(&mut init, p, &format!("{p} v0\n"));
+            }
+            put_file(&mut init, "d/..a", "d/..a v0\n");
+            for ti in &g {
+                put_siblings(&mut init, TARGETS[*ti], &mut |i| per_deco == 0 || i % 2 == (k + ti) % 2 || i < 8);
+            }
+            put_siblings(&mut init, "moved.txt", &mut |i| i < 6);
+            let mut combos: Vec<(usize, u64)> = vec![];
+            for ti in &g {
+                for tool in 0..8u64 {
+                    combos.push((*ti, tool));
+                }
+            }
+            let take = if per_deco == 0 { combos.len() } else { per_deco };
+            let mut ops = vec![];
+            for j in 0..take {
+                // a stride coprime to 24 walks through all (target, tool) pairs before it repeats
+                let (ti, tool) = combos[(k * 5 + j * 7) % combos.len()];
+                let t = TARGETS[ti];
+                let raw = decorate(pre, inf, suf, t);
+                let step = (j + 1) as u64;
+                let op = if tool < 4 {
+                    json!({"op": "tool", "name": "write", "args": write_args(tool, &raw, &format!("sys {t} v{step}\n")), "undo": true, "undo_runner": j % 3 == 0})
+                } else {
+                    if !header_safe(&raw) {
+                        continue;
+                    }
+                    // an Add of an existing file / a Delete of a missing one is refused by the tool: still a call with an auto checkpoint
+                    let first = format!("{t} v0");
+                    let dest = decorate(pre, inf, suf, "moved.txt");
+                    json!({"op": "tool", "name": "apply_patch", "args": patch_op(vec![patch_lines(tool - 4, &raw, &first, &dest, step)]), "undo": true, "undo_runner": j % 3 == 1})
+                };
+                ops.push(op);
+            }
+            k += 1;
+            v.push(json!({"cwd": (k % 3) as u64, "init": listing_json(&init), "ops": ops, "shrink": true}));
+        }
+    }
+    v
 }
 
 fn run_case(rt: &tokio::runtime::Runtime, case: &Value) -> Value {
@@ -483,7 +810,7 @@ fn run_case(rt: &tokio::runtime::Runtime, case: &Value) -> Value {
     std::env::set_current_dir(sbx.cwd_dir(cwd)).expect("chdir");
     let root_s = sbx.root.to_string_lossy().to_string();
     let init_listing = ws_listing(&sbx.root);
-    let mut w = World { sbx: &sbx, ws, runner, rt, seq: 0, cks: vec![], root_s: root_s.clone() };
+    let mut w = World { sbx: &sbx, ws, runner, rt, seq: 0, cks: vec![], root_s: root_s.clone(), last: init_listing.clone() };
     let mut run = Run::default();
     if let Some(ops) = case.get("ops").and_then(|o| o.as_array()) {
         for op in ops {
@@ -513,6 +840,28 @@ fn shrink_case(rt: &tokio::runtime::Runtime, first: &Value) -> Value {
         let o = run_case(rt, &mk(cand));
         o["viol"].as_array().map(|v| v.iter().any(|x| x["class"] == class.as_str())).unwrap_or(false)
     });
+    // ... then the fewest files of the initial workspace (directories stay)
+    let entries: Vec<(String, Value)> = init.as_object().map(|m| m.iter().map(|(k, v)| (k.clone(), v.clone())).collect()).unwrap_or_default();
+    let (dirs, files): (Vec<_>, Vec<_>) = entries.into_iter().partition(|(_, v)| v.as_str() == Some("<dir>"));
+    let mk_init = |fs: &[(String, Value)]| -> Value {
+        let mut m = serde_json::Map::new();
+        for (k, v) in dirs.iter().chain(fs.iter()) {
+            m.insert(k.clone(), v.clone());
+        }
+        Value::Object(m)
+    };
+    let small_files = if files.len() <= 400 {
+        shrink_vec(files.clone(), |cand| {
+            let o = run_case(rt, &json!({"cwd": cwd, "init": mk_init(cand), "ops": small}));
+            o["viol"].as_array().map(|v| v.iter().any(|x| x["class"] == class.as_str())).unwrap_or(false)
+        })
+    } else {
+        files.clone()
+    };
+    let o = run_case(rt, &json!({"cwd": cwd, "init": mk_init(&small_files), "ops": small}));
+    if o["viol"].as_array().map(|v| v.iter().any(|x| x["class"] == class.as_str())).unwrap_or(false) {
+        return o;
+    }
     let o = run_case(rt, &mk(&small));
     if o["viol"].as_array().map(|v| !v.is_empty()).unwrap_or(false) {
         o
@@ -530,7 +879,7 @@ fn worker(a: &Args) {
     for j in &jobs {
         let got = std::panic::catch_unwind(std::panic::AssertUnwindSafe(|| {
             let o = run_case(&rt, j);
-            if j.get("ops").is_none() && o["viol"].as_array().map(|v| !v.is_empty()).unwrap_or(false) {
+            if (j.get("ops").is_none() || j["shrink"].as_bool().unwrap_or(false)) && o["viol"].as_array().map(|v| !v.is_empty()).unwrap_or(false) {
                 shrink_case(&rt, &o)
             } else {
                 o
@@ -568,8 +917,8 @@ fn main() {
     }
     let verif_root = a.extra.get("verif").cloned().unwrap_or_else(|| env!("CARGO_MANIFEST_DIR").to_string() + "/..");
     let mut res = RunResult::new("C14", &a);
-    res.rule = "cases = (initial workspace, history, process cwd): 3-10 operations drawn from checkpoint create (Workspace API / ToolRunner + real hook; 1-4 paths: existing, missing, nested, './', '//', '/./', trailing '/', absolute inside the root, directories, the root, '..' and outside paths), harness edits (write, delete, mkdir, file replaced by a directory and back, rmtree), write / apply_patch (add, update, move, delete) through ToolRunner::run with auto-checkpoints, and rewinds to any earlier checkpoint in any order; cwd in {root, sibling, parent}; non-trivial = at least one successful create and one rewind".into();
-    let n = if a.thorough() { 8000 } else { 400 };
+    res.rule = "cases = (initial workspace, history, process cwd): 3-10 operations drawn from checkpoint create (Workspace API / ToolRunner + real hook; 1-4 paths: existing, missing, nested, './', '//', '/./', trailing '/', absolute inside the root, directories, the root, '..' and outside paths), harness edits (write, delete, mkdir, file replaced by a directory and back, rmtree), write (atomic / plain / append / append without create) and apply_patch (add, update, move, delete) through ToolRunner::run with auto-checkpoints - path arguments and patch headers decorated (leading / trailing blanks incl. unicode blanks and newlines, './', '//', '/./', trailing '/', backslashes, ...), each call followed (3 of 4) by a rewind to its own auto checkpoint judged by effect (whole tree before the call = tree after the rewind) - and rewinds to any earlier checkpoint in any order; workspaces hold siblings of the targets (<stem>.tmp, <name>.tmp, <name>~, .<name>.swp, <name>.tmp-x, <name>.bak, ...); a systematic block runs every single decoration x target x tool; cwd in {root, sibling, parent}; non-trivial = at least one successful create and one rewind".into();
+    let n = if a.thorough() { 8000 } else { 350 };
     let mut r = Rng::new(a.seed);
     let mut jobs: Vec<Value> = if let Some(rp) = &a.replay {
         let j: Value = serde_json::from_str(&std::fs::read_to_string(rp).unwrap()).unwrap();
@@ -578,6 +927,7 @@ fn main() {
         corpus(&std::path::Path::new(&verif_root).join("corpus/C14"))
     };
     if a.replay.is_none() {
+        jobs.extend(systematic(a.seed, if a.thorough() { 0 } else { 10 }));
         for _ in 0..n {
             jobs.push(json!({"seed": r.next(), "cwd": r.below(3), "n_ops": r.range(3, 10)}));
         }
